@@ -24,7 +24,7 @@ COMPONENTS = {
     'reference': ['sim/ref_format.py reader and writer'],
 }
 ASSUMPTIONS = ['the reference reader/writer encodes my reading of the README and of the statement of C14']
-PROBES = ['reverse_legacy_metadata', 'reverse_encrypted', 'reverse_foreign_snapshot', 'delete', 'clean']
+PROBES = ['reverse_epoch_timestamps', 'reverse_legacy_metadata', 'reverse_encrypted', 'reverse_foreign_snapshot', 'delete', 'clean']
 TIERS = {'quick': {'budget_s': 70, 'batch': 10}, 'thorough': {'budget_s': 900, 'batch': 20}}
 ORACLES = ('store', 'format', 'exact')
 
@@ -42,7 +42,7 @@ def gen_case(seed, tier):
         for p in rng.sample(paths, rng.randrange(1, len(paths) + 1)):
             size = rng.choice([0, 1, 3, 4, 17, 64, 100, 257, 1000])
             files.append({'p': p, 'd': base64.b64encode(rng.randbytes(size) if rng.random() < 0.8 else bytes(size)).decode(),
-                          'mt': rng.randrange(10**9, 2 * 10**9)})
+                          'mt': rng.randrange(10**9, 2 * 10**9) if rng.random() < 0.9 else rng.choice([0, 0, 1, 2**31, 2**32])})
         t += rng.randrange(1, 10**6)
         snaps.append({'files': files, 'legacy': rng.random() < 0.4, 'at': t, 'note': rng.choice([None, 'ref note']),
                       'maxchunk': rng.choice([1, 5, 16, 64, 300]), 'pad': rng.choice([0, 0, 1, 3, 4]),
@@ -136,9 +136,12 @@ def run_reverse(case):
                     probes['reverse_legacy_metadata'] = 1
                     want_mt = mt * 10**9
                 else:
+                    off = (1, 7, 9) if mt else (0, 0, 0)     # mt == 0: every time-stamp is exactly the epoch
                     md = {'st_mode': 0o100644, 'st_uid': 0, 'st_gid': 0, 'st_size': len(data),
-                          'st_atime_ns': mt * 10**9 + 1, 'st_mtime_ns': mt * 10**9 + 7, 'st_ctime_ns': mt * 10**9 + 9}
-                    want_mt = mt * 10**9 + 7
+                          'st_atime_ns': mt * 10**9 + off[0], 'st_mtime_ns': mt * 10**9 + off[1], 'st_ctime_ns': mt * 10**9 + off[2]}
+                    want_mt = mt * 10**9 + off[1]
+                    if not mt:
+                        probes['reverse_epoch_timestamps'] = 1
                 if not entries[path] and table:
                     # an empty file still points into the stream (range of length 0 in the first chunk)
                     entries[path].append({'range': [0, 0], 'index': 0, 'counter': 1})
@@ -150,7 +153,7 @@ def run_reverse(case):
             loc, blob = writer.encode_snapshot(table, data, rng)
             objs[loc] = blob
             model.append({'loc': loc, 'ts': ts, 'mine': writer is ref_me or not enc,
-                          'files': {p: (d, (m * 10**9 if sn['legacy'] else m * 10**9 + 7)) for p, _, _, m, d in spans},
+                          'files': {p: (d, (m * 10**9 if sn['legacy'] or not m else m * 10**9 + 7)) for p, _, _, m, d in spans},
                           'name': ref_format.RefRepo.parse_snapshot_location(loc)[0]})
         W.state.objects.update(objs)
 
